@@ -1740,11 +1740,109 @@ def r6_placeholder_map(ctx, rid):
             raise AnalysisError(f"{rid}: `{norm(c)}`: cannot decide whether `{ast.unparse(a[gp[2]])}` covers all placeholders")
 
 
+
+def r7_algebraic_expansion_fixpoint(ctx, rid):
+    """Before differentiation every algebraic (non-DE) intermediate must be expanded until none is left: a symbol that
+    stays opaque makes sympy.diff drop the chain-rule terms through it, while the generated vector field still
+    evaluates it.  Structural obligations on the expander nested in _get_symbolic_rhs:
+      (a) the substitution candidates are ALL free symbols found in the definitions table - the guard of the
+          substitution store mentions only the loop symbol and that table (no "already expanded" filter, no depth bound);
+      (b) the loop repeats while the expression still changes;
+      (c) every DE right-hand side goes through the expander before it is appended to the list that is differentiated."""
+    f = ctx.repo.get_func(CG, "ComputeGraph._get_symbolic_rhs")
+    exp = None
+    for g in f.nested.values():
+        if any(isinstance(n, ast.Attribute) and n.attr == "free_symbols" for n in ast.walk(g.node)):
+            exp = g
+    if exp is None:
+        raise AnalysisError(f"{rid}: the expander of algebraic intermediates (nested function reading .free_symbols) was not found")
+    loops = [n for n in walk_shallow(exp.node) if isinstance(n, ast.While)]
+    if len(loops) != 1:
+        raise AnalysisError(f"{rid}: {exp.qual}: expected one while loop, found {len(loops)}")
+    loop = loops[0]
+    fors = [n for n in ast.walk(loop) if isinstance(n, ast.For) and any(isinstance(a, ast.Attribute) and a.attr == "free_symbols" for a in ast.walk(n.iter))]
+    if len(fors) != 1 or not isinstance(fors[0].target, ast.Name):
+        raise AnalysisError(f"{rid}: {exp.qual}: loop over free_symbols not recognised")
+    fl = fors[0]
+    sym = fl.target.id
+    # the definitions table: a dict of the enclosing function filled from var_updates['non-DEs']
+    stores = [n for n in ast.walk(fl) if isinstance(n, ast.Assign) and len(n.targets) == 1 and isinstance(n.targets[0], ast.Subscript)
+              and isinstance(n.targets[0].slice, ast.Name) and n.targets[0].slice.id == sym]
+    if len(stores) != 1:
+        raise AnalysisError(f"{rid}: {exp.qual}: substitution store subs[sym] = ... not recognised")
+    st = stores[0]
+    val = st.value
+    if not (isinstance(val, ast.Subscript) and isinstance(val.value, ast.Name) and isinstance(val.slice, ast.Name) and val.slice.id == sym):
+        raise AnalysisError(f"{rid}: {exp.qual}: substituted value is not table[sym]")
+    table = val.value.id
+    filled = [n for n in walk_shallow(f.node) if isinstance(n, ast.Assign) and len(n.targets) == 1 and isinstance(n.targets[0], ast.Subscript)
+              and isinstance(n.targets[0].value, ast.Name) and n.targets[0].value.id == table]
+    in_nonde_loop = any(isinstance(a, ast.For) and "non-DEs" in ast.unparse(a.iter) for x in filled for a in _ancestors_of(x))
+    if not filled or not in_nonde_loop:
+        raise AnalysisError(f"{rid}: the definitions table `{table}` is not filled from var_updates['non-DEs']")
+    guards = [a for a in _ancestors_of(st) if isinstance(a, ast.If) and _inside(fl, a)]
+    allowed = {sym, table}
+    extra = set()
+    for gnode in guards:
+        for n in ast.walk(gnode.test):
+            if isinstance(n, ast.Name) and n.id not in allowed:
+                extra.add(n.id)
+    facts = {"expander": exp.qualname, "guards": [norm(gd) for gd in guards], "table": table}
+    if not guards:
+        raise AnalysisError(f"{rid}: {exp.qual}: substitution is not guarded by a membership test in `{table}`")
+    if extra:
+        ctx.violation(rid, exp, st, f"the expansion of algebraic intermediates skips symbols depending on {sorted(extra)} (guard "
+                                    f"`{norm(guards[0])}`): an intermediate that re-appears through another one stays an opaque symbol, and "
+                                    f"sympy.diff drops the chain-rule terms through it (Jacobian != derivative of the vector field)", facts,
+                      label="expansion candidates = all algebraic symbols")
+    else:
+        ctx.ok(rid, exp, st, "every free symbol that has an algebraic definition is substituted in every round", facts,
+               label="expansion candidates = all algebraic symbols")
+    # (b) fixpoint: the while condition is a flag set whenever the expression changed
+    flag = loop.test.id if isinstance(loop.test, ast.Name) else None
+    if flag is None:
+        raise AnalysisError(f"{rid}: {exp.qual}: while condition is not a change flag")
+    sets_true = [n for n in ast.walk(loop) if isinstance(n, ast.Assign) and any(isinstance(t, ast.Name) and t.id == flag for t in n.targets)
+                 and isinstance(n.value, ast.Constant) and n.value.value is True]
+    changed_guard = False
+    for n in sets_true:
+        for a in _ancestors_of(n):
+            if isinstance(a, ast.If) and _inside(loop, a) and any(isinstance(c, ast.Compare) and isinstance(c.ops[0], ast.NotEq) for c in ast.walk(a.test)):
+                changed_guard = True
+    if sets_true and changed_guard:
+        ctx.ok(rid, exp, loop, "the expansion repeats until the expression no longer changes", label="expansion runs to a fixpoint")
+    else:
+        ctx.violation(rid, exp, loop, "the expansion loop does not repeat while the expression changes (single pass): nested algebraic "
+                                      "intermediates stay unexpanded", label="expansion runs to a fixpoint")
+    # (c) every DE expression passes the expander before it is stored in the differentiated list
+    calls = [c for c in walk_shallow(f.node) if isinstance(c, ast.Call) and isinstance(c.func, ast.Name) and c.func.id == exp.name]
+    de_loop = [n for n in walk_shallow(f.node) if isinstance(n, ast.For) and "'DEs'" in ast.unparse(n.iter)]
+    if not de_loop:
+        raise AnalysisError(f"{rid}: loop over var_updates['DEs'] not found in _get_symbolic_rhs")
+    if any(_inside(de_loop[0], c) for c in calls):
+        ctx.ok(rid, f, calls[0], "each DE right-hand side is expanded before it is differentiated", label="DE rhs passes the expander")
+    else:
+        ctx.violation(rid, f, de_loop[0], "DE right-hand sides are no longer passed through the expander of algebraic intermediates",
+                      label="DE rhs passes the expander")
+
+
+def _ancestors_of(n):
+    p = getattr(n, "_parent", None)
+    while p is not None:
+        yield p
+        p = getattr(p, "_parent", None)
+
+
+def _inside(outer, inner):
+    return any(x is inner for x in ast.walk(outer))
+
+
 RULES = [
     ("C12-R1", r1_index_provenance, 20),     # 8 row/column stores, 2 emitters, 1 hand-over, 2 Fortran lines, 5 text indices, 2 hooks
     ("C12-R2", r2_layout_loops, 6),          # 3 loops x (extent) + 2 sibling comparisons + per-DE lists
     ("C12-R3", r3_resolved_before_print, 7),  # _expr_to_jac_str + 4 stores + 2 emitters
     ("C12-R4", r4_sparse_confined, 14),      # 11 entry computations/emitters + 2 guards + flow of guarded values
     ("C12-R5", r5_index_base, 9),            # 2 emitters + 2 Fortran lines + 5 text indices
-    ("C12-R6", r6_placeholder_map, 2),       # 2 _expr_to_jac_str call sites
+    ("C12-R6", r6_placeholder_map, 2),
+    ("C12-R7", r7_algebraic_expansion_fixpoint, 3),       # 2 _expr_to_jac_str call sites
 ]
